@@ -34,14 +34,14 @@ func init() {
 			"Oracles: the first visible config equals the reference stack default < file < env < flag; the harness Verify() logs the file-marker leaf of every receiver - it must be set in every logged call when a file is configured and there must be at least one call; after return a non-blocking receive on Events() finds nothing and the OnNewConfig/OnWatchedError logs are empty; configs valid only with the file must succeed; a missing or malformed file and a failing Verify must return errors (wrapping the cause); with watching on, the file is rewritten and the new view must again follow the precedence, every new Verify call sees the file layer, and OnNewConfig now fires. " +
 			"distinct_nontrivial = distinct (entry point, flag source, path origin, watch, assignment matrix) signatures with >=1 leaf assigned to >=2 layers.",
 		Assumptions: []string{"the environment is the worker process's own (cleared at start; cases run serially within a worker)"},
-		MinDistinct: map[string]int{"quick": 700, "thorough": 15000},
+		MinDistinct: map[string]int{"quick": 1000, "thorough": 150000},
 		MinCounters: map[string]map[string]int64{
 			"quick":    {"first_views_compared": 700, "verify_calls_with_file_layer": 700, "error_cases_checked": 150, "watched_rewrites_converged": 100, "events_channel_checked_empty": 700},
-			"thorough": {"first_views_compared": 15000},
+			"thorough": {"first_views_compared": 200000},
 		},
 		Plan: func(tier string) fw.Plan {
 			if tier == "thorough" {
-				return fw.Plan{Shards: 16, CasesPerShard: 1500, TimeoutSec: 3000}
+				return fw.Plan{Shards: 16, CasesPerShard: 25000, TimeoutSec: 3000}
 			}
 			return fw.Plan{Shards: 8, CasesPerShard: 300, TimeoutSec: 900}
 		},
